@@ -198,6 +198,17 @@ class C01(DiffProperty):
                 ops += ["aterm"] if rng.random() < 0.8 else ["apush", "-"]
             ops += ["msg"]
             cases.append(" ".join([str(v)] + ops))
+        # very long pushes: the encoder overhead exceeds the slack of the initial reservation more than once, so that
+        # mpt_array_push continues after SEVERAL partial consumptions inside one call
+        for i, n in enumerate([16000, 33000, 40000, 66000] if tier == "quick" else [16000, 33000, 40000, 66000, 130000, 40001, 39999, 50000]):
+            for v in ((i % 4), (i + 1) % 4, 4):
+                m = [rng.randrange(1, 256) for _ in range(n)]
+                if v == 4:
+                    m = [b if b != 0 else 0x20 for b in m]
+                cut = rng.randrange(1, n)
+                # no "msg" here: the model's frame splitter is quadratic; the buffer bytes are compared with the model anyway
+                ops = ["apush", hx(m[:cut]), "apush", hx(m[cut:]), "aterm", "apush", hx(m[:300]), "aterm"] if i % 2 else ["apush", hx(m), "aterm"]
+                cases.append(" ".join([str(v)] + ops))
         # bundled Python client: frames of mpt.py:encode_cobs decoded by the C decoder / reference decoder
         npy = 300 if tier == "quick" else 5000
         pm = []
